@@ -166,6 +166,7 @@ func (ex *Exec) switchTo(next *task) {
 // block parks the current task until cond() holds.
 func (ex *Exec) block(desc string, cond func() bool) {
 	cur := ex.cur
+	ex.Stats.DeadlockChecks++
 	for !cond() {
 		cur.waiting = cond
 		cur.waitDesc = desc
